@@ -243,6 +243,12 @@ def run(ctx):
         one_case(ctx, f'rand{k}' + (f' after {Hist.brief(hist_extra["steps"])}' if hist_extra else ''), root, rs, 4 if quick else 12, history=hist_extra)
         if ctx.n_new(with_input_only=True) >= 3:
             return
+    # mixtures with a rare component (merged weights far below 1e-8, weights within 1e-5 of one) next to deterministic components
+    for name, root in R.rare_cases():
+        ctx.count('rare-component-circuits')
+        one_case(ctx, name, root, np.random.RandomState(np_seed(ctx.sub_rng('rare', name))), 3)
+        if ctx.n_new(with_input_only=True) >= 3:
+            return
     if ctx.n_new(with_input_only=True) == 0:
         wide_clt_cases(ctx)
     for name, root, rs, cfg in learned_cases(ctx, 8 if quick else 120):
